@@ -1642,7 +1642,9 @@ def real_exp(x):
     v = mkvar(('exp', x.p.key()), None, 'R', 'exp', {'pos': True})
     if not v.defs:
         v.deps = tuple(x.p.vars())
-        v.defs = [v.z > 0]
+        az = lower(x.p)
+        # exp > 0, exp(a) >= 1 + a (so exp(a) > 1 for a > 0), exp(a) <= 1/(1 - a) for a < 1 (so exp(a) < 1 for a < 0): theorems
+        v.defs = [v.z > 0, v.z >= 1 + az, z3.Implies(az < 1, v.z * (1 - az) <= 1)]
         v.ev = lambda env, p=x.p: math.exp(p.evalf(env))
         REXP[v.id] = x.p
     return SNum(Poly.var(v.id), False)
